@@ -23,6 +23,9 @@ EXPLANATION = (
     "decided: numeric agreement with published match points.")
 
 
+COMPOUND_STRINGS = {}      # string -> [builder(table), tables it was parsed with ...]
+
+
 def setup(ctx):
     seen = []
 
@@ -30,6 +33,9 @@ def setup(ctx):
         s = args[0]
         seen.append(s)
         tab = kw.get("table") or (args[1] if len(args) > 1 else None) or I_.global_name("core", "PUBLIC_TABLE")
+        if isinstance(s, str) and s in COMPOUND_STRINGS:
+            COMPOUND_STRINGS[s].append(tab)
+            return COMPOUND_STRINGS[s][0](tab)
         fm = I_.global_name("formulas", "formula")
         Hh, Oo, Dd = I_.getattr(tab, "H"), I_.getattr(tab, "O"), I_.getattr(tab, "D")
         import re as _re
@@ -144,6 +150,22 @@ def run(ctx):
     ctx.check(set(seen) == {"H2O@0.9982n", "D2O@0.9982n"}, "R3",
               "the solvents are H2O and D2O at the same natural density 0.9982 (20 C)",
               f"strings handed to the parser: {sorted(set(seen))}", fsite(ctx, "nsf._D2O_slds"), sample=sorted(set(seen)))
+    # a compound given as a string together with table=T is parsed with T (not with the default table)
+    other = I.new_obj("other_public_table", None, {}, open_attrs=set())
+    COMPOUND_STRINGS.clear()
+    COMPOUND_STRINGS["<compound>"] = [lambda tab: I.call(fm, [dict(comp)], {"density": rho})]
+    saved = I.module_cache[("core", "PUBLIC_TABLE")]
+    I.module_cache[("core", "PUBLIC_TABLE")] = other
+    try:
+        gs = I.call(dsld, ["<compound>"], dict(kw, volume_fraction=sp.Integer(1), D2O_fraction=d))
+    finally:
+        I.module_cache[("core", "PUBLIC_TABLE")] = saved
+    tabs = COMPOUND_STRINGS["<compound>"][1:]
+    COMPOUND_STRINGS.clear()
+    seen[:] = [x for x in seen if x != "<compound>"]
+    ctx.check(bool(tabs) and all(tb is w.table for tb in tabs), "R3", "a compound string given with table=T is parsed with T",
+              f"parsed with {[getattr(tb, 'name', tb) for tb in tabs]}", fsite(ctx, "nsf._D2O_slds"))
+    eq(ctx, "R3", "D2O_sld('<string>', table=T) = D2O_sld(formula, table=T)", gs[0], got[0], s_sld)
     # private table: H[1], H and D are taken from the compound's table
     f = ctx.src.func("nsf._D2O_slds")
     names = {n.id for n in ast.walk(f.node) if isinstance(n, ast.Name)}
@@ -166,6 +188,12 @@ def run(ctx):
     ref = I.call(dsld, [lab], dict(kw0, volume_fraction=vf, D2O_fraction=d))
     eq(ctx, "R4", "Molecule.D2Osld(vf, d) = nsf.D2O_sld(...)[0]",
        I.call(I.getattr(m, "D2Osld"), [], {"volume_fraction": vf, "D2O_fraction": d}), ref[0], fsite(ctx, "fasta.Molecule.D2Osld"))
+    # the class's match point is a match point of the class's own SLD (it may lie outside [0, 1])
+    va_, vb_ = sp.symbols("va vb", positive=True)
+    mp = I.getattr(m, "D2Omatch") / 100
+    eq(ctx, "R4", "Molecule.D2Osld at Molecule.D2Omatch is the same for every volume fraction",
+       I.call(I.getattr(m, "D2Osld"), [], {"volume_fraction": va_, "D2O_fraction": mp}),
+       I.call(I.getattr(m, "D2Osld"), [], {"volume_fraction": vb_, "D2O_fraction": mp}), fsite(ctx, "fasta.Molecule.D2Osld"))
     hs = I.call(nsld, [I.call(I.getattr(lab, "replace"), [H1, H], {})], {})
     ds = I.call(nsld, [I.call(I.getattr(lab, "replace"), [H1, D], {})], {})
     eq(ctx, "R4", "Molecule.sld is the SLD of the H form", I.getattr(m, "sld"), hs[0], s_mol)
@@ -178,6 +206,6 @@ def run(ctx):
     eq(ctx, "R4", "Molecule(density=) is the natural density of the labile formula", I.getattr(lab2, "natural_density"), rho, s_mol)
     eq(ctx, "R4", "Molecule(density=): cell volume = mass / density", I.getattr(m2, "cell_volume"),
        sp.Integer(10) ** 24 * M0 / NA / I.getattr(lab2, "density"), s_mol)
-    ctx.floor("R4", 8)
+    ctx.floor("R4", 9)
     ctx.unit("functions_inlined", len(set(I.calls)))
     ctx.assume("the parser turns 'H2O@0.9982n' / 'D2O@0.9982n' into H2O / D2O at natural density 0.9982 (C01, C12-R2)")
